@@ -190,11 +190,17 @@ func genC17(verifSeed int64, tier string, idx int) *core.Scenario {
 			weights[i] = 1 + r.Intn(4)
 		}
 	}
-	if r.Intn(3) == 0 { // focus runs: registry only / sniff only
+	if r.Intn(2) == 0 { // focus runs: one family of entry points only, so that its calls meet each other
 		for i := range weights {
 			weights[i] = 0
 		}
-		switch r.Intn(4) {
+		switch r.Intn(7) {
+		case 4: // parsing only (streams and files)
+			weights[9], weights[12] = 3, 2
+		case 5: // writing only
+			weights[10], weights[13] = 3, 2
+		case 6: // detection only
+			weights[8], weights[11] = 3, 2
 		case 0:
 			weights[2], weights[3], weights[4] = 2, 2, 4
 		case 1:
